@@ -1514,6 +1514,9 @@ def sink_flag_tails(tree, ref, ref_locals):
         want = (ref_locals or {}).get(q)
         if want is None:
             continue
+        have_ = binding_order(fn)
+        if len([h for h in have_ if h not in want]) <= len([w for w in want if w not in have_]):
+            continue                    # as many unknown names as missing ones: a plain rename, the business of the alpha pass
         params = {a.arg for a in fn.args.posonlyargs + fn.args.args + fn.args.kwonlyargs}
         for _ in range(8):
             changed = False
@@ -2973,6 +2976,9 @@ def split_live_ranges(tree, ref_locals):
         want = (ref_locals or {}).get(q)
         if want is None:
             continue
+        have_ = binding_order(fn)
+        if len([h for h in have_ if h not in want]) <= len([w for w in want if w not in have_]):
+            continue                    # as many unknown names as missing ones: a plain rename, the business of the alpha pass
         params = {a.arg for a in fn.args.posonlyargs + fn.args.args + fn.args.kwonlyargs}
         if fn.args.vararg:
             params.add(fn.args.vararg.arg)
@@ -3470,6 +3476,9 @@ def drop_dead_stores(tree, ref_locals):
         want = (ref_locals or {}).get(q)
         if want is None:
             continue
+        have_ = binding_order(fn)
+        if len([h for h in have_ if h not in want]) <= len([w for w in want if w not in have_]):
+            continue                    # as many unknown names as missing ones: a plain rename, the business of the alpha pass
         loads = {n.id for n in ast.walk(fn) if isinstance(n, ast.Name) and isinstance(n.ctx, (ast.Load, ast.Del))}
         declared = {x for n in ast.walk(fn) if isinstance(n, (ast.Global, ast.Nonlocal)) for x in n.names}
         for block in _blocks(fn):
